@@ -10,43 +10,46 @@ From CG Require Import Base.Prelude Model.Dfa Model.Glob Model.BashSem Model.Cha
 From CG Require Import Proofs.GlobFacts Proofs.SubwordFacts Proofs.C12Proofs Proofs.C12Chain Proofs.C12Pinned.
 
 (** (a), on ANY within-word tables: in a state [s] where the typed rest [v] is the text of a literal that has a
-    transition (to [to]), the repaired matchers consume exactly [v] and end matched in [to] -- whatever longer or
-    shorter literals exist, enabled in [s] or not.  The literal array is in decreasing length (dfa.rs).
+    transition (to [to]) and [to] is an accepting state of the within-word automaton ([acc]; /repo HEAD checks it since
+    df274e8), the repaired matchers consume exactly [v] and end matched in [to] -- whatever longer or shorter literals
+    exist, enabled in [s] or not.  The literal array is in decreasing length (dfa.rs).
     [strdom]: no further condition for [Repaired] (operands are quoted); glob-free text for [Fixed]. *)
 Theorem C12_values_recognised :
-  forall var fuel tabs e T word s st ci v to log,
+  forall var fuel tabs e T acc word s st ci v to log,
     var <> Pinned -> strdom var (lits_of T) word -> sorted_desc (lits_of T) ->
     assocN s (t_mlit T) = Some st ->
     sdrop ci word = v -> (ci < String.length word)%nat ->
     first_enabled (lits_of T) st v = Some to ->
-    sw_loop (S (S fuel)) var false tabs e T word s ci log = Ok (true, to, String.length word, log).
+    quirky var || memN to acc = true ->
+    sw_loop (S (S fuel)) var false tabs e T acc word s ci log = Ok (true, to, String.length word, log).
 Proof. exact fixed_value_recognised. Qed.
 Check C12_values_recognised :
-  forall var fuel tabs e T word s st ci v to log,
+  forall var fuel tabs e T acc word s st ci v to log,
     var <> Pinned -> strdom var (lits_of T) word -> sorted_desc (lits_of T) ->
     assocN s (t_mlit T) = Some st ->
     sdrop ci word = v -> (ci < String.length word)%nat ->
     first_enabled (lits_of T) st v = Some to ->
-    sw_loop (S (S fuel)) var false tabs e T word s ci log = Ok (true, to, String.length word, log).
+    quirky var || memN to acc = true ->
+    sw_loop (S (S fuel)) var false tabs e T acc word s ci log = Ok (true, to, String.length word, log).
 Print Assumptions C12_values_recognised.
 
 (** (b), on ANY within-word tables: when the typed rest is a proper prefix of a literal enabled in [s], the
     repaired matchers stay in [s] in front of it ... *)
 Theorem C12_partial_stops :
-  forall var fuel tabs e T word s st ci log,
+  forall var fuel tabs e T acc word s st ci log,
     var <> Pinned -> strdom var (lits_of T) word -> sorted_desc (lits_of T) ->
     assocN s (t_mlit T) = Some st ->
     (exists id v to, In (id, v) (lits_of T) /\ assocN id st = Some to
                      /\ String.prefix (sdrop ci word) v = true /\ sdrop ci word <> v) ->
-    exists m, sw_loop (S fuel) var true tabs e T word s ci log = Ok (m, s, ci, log).
+    exists m, sw_loop (S fuel) var true tabs e T acc word s ci log = Ok (m, s, ci, log).
 Proof. exact fixed_partial_stops. Qed.
 Check C12_partial_stops :
-  forall var fuel tabs e T word s st ci log,
+  forall var fuel tabs e T acc word s st ci log,
     var <> Pinned -> strdom var (lits_of T) word -> sorted_desc (lits_of T) ->
     assocN s (t_mlit T) = Some st ->
     (exists id v to, In (id, v) (lits_of T) /\ assocN id st = Some to
                      /\ String.prefix (sdrop ci word) v = true /\ sdrop ci word <> v) ->
-    exists m, sw_loop (S fuel) var true tabs e T word s ci log = Ok (m, s, ci, log).
+    exists m, sw_loop (S fuel) var true tabs e T acc word s ci log = Ok (m, s, ci, log).
 Print Assumptions C12_partial_stops.
 
 (** ... and the completion part (every variant) then offers exactly the level-0 literals of [s] that extend the
@@ -179,41 +182,41 @@ Print Assumptions C12_chain_any_repaired_variant.
 (** it recognises [v] exactly when no literal of the array -- expected at this point or not -- properly extends
     [v] (and [v]'s text is not shadowed by a disabled duplicate) ... *)
 Theorem C12_pinned_outside_known :
-  forall fuel tabs e T word s st ci v to log,
+  forall fuel tabs e T acc word s st ci v to log,
     all_plain (lits_of T) -> plain word = true -> sorted_desc (lits_of T) ->
     assocN s (t_mlit T) = Some st ->
     sdrop ci word = v -> (ci < String.length word)%nat ->
     first_enabled (lits_of T) st v = Some to ->
     (forall id l, In (id, l) (lits_of T) -> String.prefix v l = true -> l = v /\ assocN id st <> None) ->
-    sw_loop (S (S fuel)) Pinned false tabs e T word s ci log = Ok (true, to, String.length word, log).
+    sw_loop (S (S fuel)) Pinned false tabs e T acc word s ci log = Ok (true, to, String.length word, log).
 Proof. exact pinned_value_recognised_outside_known. Qed.
 Check C12_pinned_outside_known :
-  forall fuel tabs e T word s st ci v to log,
+  forall fuel tabs e T acc word s st ci v to log,
     all_plain (lits_of T) -> plain word = true -> sorted_desc (lits_of T) ->
     assocN s (t_mlit T) = Some st ->
     sdrop ci word = v -> (ci < String.length word)%nat ->
     first_enabled (lits_of T) st v = Some to ->
     (forall id l, In (id, l) (lits_of T) -> String.prefix v l = true -> l = v /\ assocN id st <> None) ->
-    sw_loop (S (S fuel)) Pinned false tabs e T word s ci log = Ok (true, to, String.length word, log).
+    sw_loop (S (S fuel)) Pinned false tabs e T acc word s ci log = Ok (true, to, String.length word, log).
 Print Assumptions C12_pinned_outside_known.
 
 (** ... and it refuses [v] as soon as some literal of the array properly extends it (the finding repaired by
     ac67eca: this is the class lib/vf/checks/c12.py attributes violations to on a tree with the old template). *)
 Theorem C12_pinned_known_class :
-  forall fuel tabs e T word s st ci v log,
+  forall fuel tabs e T acc word s st ci v log,
     all_plain (lits_of T) -> plain word = true -> sorted_desc (lits_of T) ->
     assocN s (t_mlit T) = Some st ->
     sdrop ci word = v -> (ci < String.length word)%nat ->
     (exists id l, In (id, l) (lits_of T) /\ String.prefix v l = true /\ l <> v) ->
-    sw_loop (S fuel) Pinned false tabs e T word s ci log = Ok (false, s, ci, log).
+    sw_loop (S fuel) Pinned false tabs e T acc word s ci log = Ok (false, s, ci, log).
 Proof. exact pinned_value_refused. Qed.
 Check C12_pinned_known_class :
-  forall fuel tabs e T word s st ci v log,
+  forall fuel tabs e T acc word s st ci v log,
     all_plain (lits_of T) -> plain word = true -> sorted_desc (lits_of T) ->
     assocN s (t_mlit T) = Some st ->
     sdrop ci word = v -> (ci < String.length word)%nat ->
     (exists id l, In (id, l) (lits_of T) /\ String.prefix v l = true /\ l <> v) ->
-    sw_loop (S fuel) Pinned false tabs e T word s ci log = Ok (false, s, ci, log).
+    sw_loop (S fuel) Pinned false tabs e T acc word s ci log = Ok (false, s, ci, log).
 Print Assumptions C12_pinned_known_class.
 
 (** the second half of the property held for it on this family, provided no value extends the piece itself *)
